@@ -34,7 +34,9 @@ def setup(symbolic):
 
 
 def bounds(tier):
-    return {'swap': 'pre-states of C04\'s one-step generator on two threads (sequences of <= %d events) and every ordered pair '
+    return {'long programs': 'a thread running two consecutive operations (4 events) interleaved in every way with a 1..2-event '
+                             'program of another thread',
+            'swap': 'pre-states of C04\'s one-step generator on two threads (sequences of <= %d events) and every ordered pair '
                     'of events e1 (thread 1), e2 (thread 2) over %d event kinds; both orders run, per-event traces and the '
                     'whole parser state compared' % (1 if tier == 'quick' else 2, len(KINDS)),
             'interleavings': 'every interleaving of 2 threads x 2 events and (thorough) 3 threads x 1..2 events over the '
@@ -71,6 +73,15 @@ def structures(tier):
                 if list(order) == [0] * len(p1) + [1] * len(p2):
                     continue
                 sts.append({'kind': 'inter', 'progs': [p1, p2], 'order': list(order)})
+    # a thread that completes one operation and starts the next while another thread's records arrive in between
+    for long_ in (['As', 'Ae', 'As', 'Ae'], ['Rs', 'Re', 'As', 'Ae']):
+        for short in (['An'], ['Rs', 'Re'], ['ND']):
+            if tier == 'quick' and short == ['ND'] and long_[0] == 'Rs':
+                continue
+            for order in _interleavings([len(long_), len(short)]):
+                if list(order) == [0] * len(long_) + [1] * len(short):
+                    continue
+                sts.append({'kind': 'inter', 'progs': [long_, short], 'order': list(order)})
     if tier == 'thorough':
         trio = [['ND', 'NS'], ['ED', 'ES'], ['ND'], ['NS'], ['As', 'Ae']]
         for p1, p2, p3 in itertools.product(trio, repeat=3):
